@@ -2,6 +2,7 @@
 //! that call the crate-private routing table items. No logic of their own.
 
 use super::*;
+pub use super::{Distance, KeyBytes, U256};
 
 /// Bucket index of a distance (`BucketIndex::new`).
 pub fn bucket_index(d: &Distance) -> Option<usize> {
